@@ -50,6 +50,19 @@ func (g *FuncGen) heapGet(h *Heap, name, srt string) string {
 	case hEntry:
 		t = g.declare("H0:"+name, srt)
 		g.heapSorts[name] = srt
+		// heap closure: every reference stored in the entry heap was allocated before entry
+		if g.alloc0 != "" {
+			switch g.mapRefKind[name] {
+			case "ref":
+				g.assert(fmt.Sprintf("(forall ((r Int)) (! (and (<= 0 (select %s r)) (< (select %s r) %s)) :pattern ((select %s r))))", t, t, g.alloc0, t))
+			case "slice":
+				g.assert(fmt.Sprintf("(forall ((r Int)) (! (and (wf_slice (select %s r)) (< (s_arr (select %s r)) %s)) :pattern ((select %s r))))", t, t, g.alloc0, t))
+			case "elemref":
+				g.assert(fmt.Sprintf("(forall ((a Int) (i Int)) (! (and (<= 0 (select (select %s a) i)) (< (select (select %s a) i) %s)) :pattern ((select (select %s a) i))))", t, t, g.alloc0, t))
+			case "elemslice":
+				g.assert(fmt.Sprintf("(forall ((a Int) (i Int)) (! (and (wf_slice (select (select %s a) i)) (< (s_arr (select (select %s a) i)) %s)) :pattern ((select (select %s a) i))))", t, t, g.alloc0, t))
+			}
+		}
 	case hOverride:
 		if h.name == name {
 			t = h.term
@@ -165,15 +178,32 @@ func (g *FuncGen) mr(name, srt string) MapRef {
 	g.mapSortCache[name] = srt
 	return MapRef{name, srt}
 }
+func refKind(t types.Type) string {
+	switch t.Underlying().(type) {
+	case *types.Pointer, *types.Map:
+		return "ref"
+	case *types.Slice:
+		return "slice"
+	}
+	return ""
+}
 func (g *FuncGen) fieldMap(structT types.Type, i int) MapRef {
 	st := structT.Underlying().(*types.Struct)
-	return g.mr("F:"+typeName(structT)+"."+st.Field(i).Name(), "(Array Int "+g.w.SortOf(st.Field(i).Type())+")")
+	name := "F:" + typeName(structT) + "." + st.Field(i).Name()
+	g.mapRefKind[name] = refKind(st.Field(i).Type())
+	return g.mr(name, "(Array Int "+g.w.SortOf(st.Field(i).Type())+")")
 }
 func (g *FuncGen) cellMap(t types.Type) MapRef {
-	return g.mr("C:"+typeName(t), "(Array Int "+g.w.SortOf(t)+")")
+	name := "C:" + typeName(t)
+	g.mapRefKind[name] = refKind(t)
+	return g.mr(name, "(Array Int "+g.w.SortOf(t)+")")
 }
 func (g *FuncGen) elemMap(elem types.Type) MapRef {
-	return g.mr("E:"+typeName(elem), "(Array Int (Array Int "+g.w.SortOf(elem)+"))")
+	name := "E:" + typeName(elem)
+	if k := refKind(elem); k != "" {
+		g.mapRefKind[name] = "elem" + k
+	}
+	return g.mr(name, "(Array Int (Array Int "+g.w.SortOf(elem)+"))")
 }
 func (g *FuncGen) mapDom(m *types.Map, named types.Type) MapRef {
 	return g.mr("MD:"+typeName(m), "(Array Int (Array "+g.w.SortOf(m.Key())+" Bool))")
